@@ -693,6 +693,7 @@ int main(int argc, char **argv)
 	if (!strcmp(prop, "C19")) vk_call_mode = VC_POISON_REGS;
 	if (pair_mode) vk_call_mode = VC_POISON_REGS | VC_STACK;
 	if (ref_run_kats(0)) { fprintf(stderr, "reference KATs failed\n"); return 2; }
+	if (vk_want_wtrap) vk_wtrap_enable();
 	vk_slot_init(&s_arena, "arena", 1 << 16, 0);
 	vk_slot_init(&s_pool, "pool", POOLSZ, 1);
 	vk_slot_init(&s_outp, "ctx_out", 4096, 0);
